@@ -447,7 +447,7 @@ def check_C06(run):
                              ("faultset", "faultset", 60, 1200, "fault injection into the Commit of set transactions (the C12 protocol on "
                               "the set profile): an I/O error at each mutation point; after Rollback and after reopen every set "
                               "observation must equal the one before the transaction")])
-    check_hist_generic(run, [("setraw", "setraw", 150, 3000, RULE_HIST + "; profile setraw: set transactions that remove a member and then "
+    check_hist_generic(run, [("setraw", "setraw", 450, 6000, RULE_HIST + "; profile setraw: set transactions that remove a member and then "
                               "move / re-add it in the same transaction; impl = model must hold; a spec mismatch is attributed to known "
                               "finding F21 (C13) only when the failing call validates a set the transaction already modified")],
                        known=known_F21)
